@@ -254,6 +254,21 @@ def primLine (parts : List String) : String :=
          else match d.dh k ((unhex (arg 5)).take d.pubLen) with
            | some o => s!"ok {hex o}"
            | none => "err Dh")
+    | "dhseq" =>
+      -- one Dh object given two keys in a row: the key pair and the DH are those of the last key
+      (match provides e "dh" (arg 3) with
+       | none => "none"
+       | some b0 =>
+         let b := toReal b0
+         let d := Real.dhImpl b (dhSel (arg 3))
+         let one := fun (k : Bytes) =>
+           if !d.validPriv k then "panic"
+           else s!"{hex (d.pubOf k)} " ++ (match d.dh k ((unhex (arg 6)).take d.pubLen) with
+             | some o => hex o
+             | none => "errDh")
+         s!"ok {one (unhex (arg 5))} {hex (d.pubOf (unhex (arg 5)))} " ++ (match d.dh (unhex (arg 5)) ((unhex (arg 6)).take d.pubLen) with
+             | some o => hex o
+             | none => "errDh"))
     | _ => "badop"
 
 
